@@ -431,7 +431,11 @@ class Group:
                 if f is not None and not f.done():
                     f.set_result((0, self.assignments.get(k, b"")))
                 mm["sync_fut"] = None
-        return await fut
+        res = await fut
+        d = getattr(self.cluster, "sync_delay", 0.0)
+        if d:
+            await asyncio.sleep(d)  # slow reply: the member stays blocked in SyncGroup
+        return res
 
     def heartbeat(self, req):
         self.check_sessions()
